@@ -546,6 +546,28 @@ fn cmd_delta_cases(args: &[String]) {
                     let has_c = c["ops"].as_array().unwrap().iter().any(|o| o["t"] == "C");
                     let has_l = c["ops"].as_array().unwrap().iter().any(|o| o["t"] == "L");
                     if has_c && has_l { nontrivial += 1; }
+                    // "every positive block size": the library engines at block sizes 1, 2, 3, 5 on one byte per symbol (a window
+                    // of one byte, a tail shorter than any window) - the round-trip clauses only, the CLI refuses such sizes
+                    if (ci / nthreads) % 3 == 0 {
+                        let cs = seed.wrapping_add((ci as u64) % 5);
+                        let one = |syms: &Value| -> Vec<u8> { syms.as_array().unwrap().iter().map(|s| (s.as_str().unwrap().bytes()
+                            .fold(1469598103934665603u64 ^ cs, |h, b| (h ^ b as u64).wrapping_mul(1099511628211)) % 251) as u8).collect() };
+                        let basis = one(&c["basis"]);
+                        let source = one(&c["source"]);
+                        for tiny in [1usize, 2, 3, 5] {
+                            // (a signature of any positive block size comes from Signature::generate; the engines take the size from it)
+                            let ob = deltal::observe(&rt, &basis, &source, tiny, false);
+                            evals += 1;
+                            let mut viol: Vec<String> = vec![];
+                            if ob["completed"] != true { viol.push(format!("block size {tiny}: the engines failed / panicked: {}", ob["error"])); }
+                            else {
+                                let sum: u64 = ob["ops"].as_array().unwrap().iter().map(|o| if o[0] == "C" { o[2].as_u64().unwrap() } else { o[1].as_u64().unwrap() }).sum();
+                                if sum != source.len() as u64 { viol.push(format!("block size {tiny}: copy+literal lengths sum to {sum}, source is {}", source.len())); }
+                                for k in ["lit_ok", "fields_ok", "patched_ok", "engines_agree"] { if ob[k] != true { viol.push(format!("block size {tiny}: {k} is false")); } }
+                            }
+                            for v in viol { out.push(json!({"kind":"violation","case":ci,"R":tiny,"what":v,"input":{"basis":c["basis"],"source":c["source"],"B":b,"chunk_seed":cs,"clen":1}})); }
+                        }
+                    }
                     for &r in &rs {
                         let clen = r / b;
                         let cs = seed.wrapping_add((ci as u64) % 5);   // a few chunk families
@@ -896,7 +918,15 @@ mod patchc {
     pub fn run_cli(copia: &str, dir: &std::path::Path, basis: &[u8], d: &Delta, raw_delta: Option<&[u8]>) -> (i32, bool, String) {
         std::fs::write(dir.join("pb"), basis).unwrap();
         match raw_delta { Some(b) => std::fs::write(dir.join("pd"), b).unwrap(), None => std::fs::write(dir.join("pd"), bincode::serialize(d).unwrap()).unwrap() }
+        // the output path is, in turn, absent / an older and LONGER file / an older and shorter one (a re-run onto the same
+        // `-o`): success has to describe the file as it is afterwards, not the bytes handed to the writer
+        static TURN: std::sync::atomic::AtomicUsize = std::sync::atomic::AtomicUsize::new(0);
         let _ = std::fs::remove_file(dir.join("po"));
+        match TURN.fetch_add(1, std::sync::atomic::Ordering::Relaxed) % 3 {
+            1 => std::fs::write(dir.join("po"), vec![0xEEu8; (d.source_size.min(4 << 20) as usize) + 777]).unwrap(),
+            2 => std::fs::write(dir.join("po"), b"old").unwrap(),
+            _ => {}
+        }
         let o = std::process::Command::new("timeout").arg("20").arg(copia).args(["patch", dir.join("pb").to_str().unwrap(), dir.join("pd").to_str().unwrap(), "-o", dir.join("po").to_str().unwrap()])
             .env("RUST_LOG", "off").output().unwrap();
         use std::os::unix::process::ExitStatusExt;
